@@ -529,6 +529,31 @@ def exotic(doc, r, p=0.4):
     return conv(doc, 0)
 
 
+def exotic_mutable(doc, r, p=0.6):
+    """The same JSON value held in MUTABLE dict / list subclasses (OrderedDict, defaultdict, plain subclasses): what
+    json.load(..., object_pairs_hook=OrderedDict) and similar loaders produce; JSON Patch can work on these."""
+    import collections
+
+    def conv(v):
+        if isinstance(v, dict):
+            d = {k: conv(x) for k, x in v.items()}
+            if r.random() < p:
+                kind = r.choice(["ordered", "default", "subclass"])
+                if kind == "ordered":
+                    return collections.OrderedDict(d)
+                if kind == "default":
+                    dd = collections.defaultdict(None)
+                    dd.update(d)
+                    return dd
+                return DictSub(d)
+            return d
+        if isinstance(v, list):
+            l = [conv(x) for x in v]
+            return ListSub(l) if r.random() < p else l
+        return v
+    return conv(doc)
+
+
 import collections.abc as _abc
 
 
